@@ -4,7 +4,11 @@ import (
 	"fmt"
 	"go/ast"
 	"go/token"
+	"go/types"
+	"sort"
 	"strings"
+
+	"golang.org/x/tools/go/cfg"
 
 	"verif/sa/core"
 )
@@ -13,13 +17,248 @@ func init() { register("C12", c12) }
 
 const emitLabelSets = "internal/metrics.(*Metric).EmitLabelSets"
 
-// emitterSpawns finds `go X.EmitLabelSets(ch)` statements in shipped code.
-type emitSpawn struct {
-	f    *core.Func
-	hit  core.Hit
-	call *ast.CallExpr
+// ---------------------------------------------------------------------------
+// R1: lock events, following lock/unlock helpers of the module.
+
+// c12LockSum says that a call of a function releases (or acquires and keeps)
+// the lock at <root><rest> on every path, where root is the receiver (-1) or
+// the i-th argument of the call.
+type c12LockSum struct {
+	root    int
+	rest    string
+	mode    string
+	acquire bool
 }
 
+type c12Locks struct {
+	c       *core.Check
+	sums    map[*core.Func][]c12LockSum
+	done    map[*core.Func]bool
+	busy    map[*core.Func]bool
+	evs     map[*core.Func][]core.LockEv
+	callers map[*core.Func]int
+}
+
+func newC12Locks(c *core.Check) *c12Locks {
+	l := &c12Locks{c: c, sums: map[*core.Func][]c12LockSum{}, done: map[*core.Func]bool{}, busy: map[*core.Func]bool{},
+		evs: map[*core.Func][]core.LockEv{}, callers: map[*core.Func]int{}}
+	for _, f := range shipped(c) {
+		ast.Inspect(f.Body, func(n ast.Node) bool {
+			if _, isLit := n.(*ast.FuncLit); isLit && n != ast.Node(f.Lit) {
+				return false // counted with the literal's own Func
+			}
+			if call, ok := n.(*ast.CallExpr); ok {
+				if cf := f.CalleeFunc(call); cf != nil {
+					l.callers[cf]++
+				}
+			}
+			return true
+		})
+	}
+	return l
+}
+
+func pathRoot(p string) (root, rest string) {
+	for i, ch := range p {
+		if ch == '.' || ch == '[' {
+			return p[:i], p[i:]
+		}
+	}
+	return p, ""
+}
+
+// events lists the lock events of f: the direct ones (core.LockEvents) plus
+// one event per call of a module function that is a pure unlock helper
+// (releases a lock of its receiver/parameter on every path and never acquires
+// it) or a pure lock helper (acquires on every path and never releases).
+func (l *c12Locks) events(f *core.Func) []core.LockEv {
+	if ev, ok := l.evs[f]; ok {
+		return ev
+	}
+	g := f.Graph()
+	out := append([]core.LockEv{}, g.LockEvents()...)
+	add := func(p core.Point, call *ast.CallExpr, deferred bool) {
+		h := f.CalleeFunc(call)
+		if h == nil || h.Lit != nil || h == f {
+			return
+		}
+		for _, s := range l.summary(h) {
+			var base ast.Expr
+			if s.root < 0 {
+				base = core.RecvExpr(call)
+			} else if s.root < len(call.Args) {
+				base = call.Args[s.root]
+			}
+			if base == nil {
+				continue
+			}
+			out = append(out, core.LockEv{Path: core.PathOf(base) + s.rest, Mode: s.mode, Acquire: s.acquire, Deferred: deferred, P: p, Call: call})
+		}
+	}
+	for _, b := range g.C.Blocks {
+		if !b.Live {
+			continue
+		}
+		for i, n := range b.Nodes {
+			p := core.Point{B: b, I: i}
+			ds, isDefer := n.(*ast.DeferStmt)
+			core.InspectNoLit(n, func(x ast.Node) bool {
+				if c, ok := x.(*ast.CallExpr); ok {
+					add(p, c, isDefer)
+				}
+				return true
+			})
+			if isDefer {
+				if lit, ok := core.Unparen(ds.Call.Fun).(*ast.FuncLit); ok {
+					ast.Inspect(lit.Body, func(x ast.Node) bool {
+						if c, ok := x.(*ast.CallExpr); ok {
+							add(p, c, true)
+						}
+						return true
+					})
+				}
+			}
+		}
+	}
+	sort.SliceStable(out, func(i, j int) bool { return out[i].Call.Pos() < out[j].Call.Pos() })
+	cnt := map[string]int{}
+	for i := range out {
+		k := out[i].Path + "|" + out[i].Mode
+		if out[i].Acquire {
+			k += "|a"
+		}
+		cnt[k]++
+		out[i].Ordinal = cnt[k]
+	}
+	l.evs[f] = out
+	return out
+}
+
+// summary computes the lock effect a call of h has for its caller.
+func (l *c12Locks) summary(h *core.Func) []c12LockSum {
+	if l.done[h] {
+		return l.sums[h]
+	}
+	if l.busy[h] {
+		return nil
+	}
+	l.busy[h] = true
+	defer delete(l.busy, h)
+	evs := l.events(h)
+	var sums []c12LockSum
+	if len(evs) > 0 {
+		g := h.Graph()
+		exits := core.ExitPoints(normalExits(g))
+		type k struct{ path, mode string }
+		acq, rel := map[k][]core.Point{}, map[k][]core.Point{}
+		var order []k
+		for _, ev := range evs {
+			kk := k{ev.Path, ev.Mode}
+			if _, a := acq[kk]; !a {
+				if _, r := rel[kk]; !r {
+					order = append(order, kk)
+				}
+			}
+			if ev.Acquire {
+				acq[kk] = append(acq[kk], ev.P)
+			} else {
+				rel[kk] = append(rel[kk], ev.P)
+			}
+		}
+		for _, kk := range order {
+			root, rest := pathRoot(kk.path)
+			idx := -2
+			if recvIdent(h) == root && root != "_" {
+				idx = -1
+			} else if i := paramIndex(h, root); i >= 0 {
+				idx = i
+			}
+			if idx == -2 || len(exits) == 0 {
+				continue
+			}
+			switch {
+			case len(acq[kk]) == 0 && len(rel[kk]) > 0:
+				if _, open := pathAvoiding(g, nil, exits, rel[kk]); !open {
+					sums = append(sums, c12LockSum{idx, rest, kk.mode, false})
+				}
+			case len(rel[kk]) == 0 && len(acq[kk]) > 0:
+				if _, open := pathAvoiding(g, nil, exits, acq[kk]); !open {
+					sums = append(sums, c12LockSum{idx, rest, kk.mode, true})
+				}
+			}
+		}
+	}
+	l.sums[h] = sums
+	l.done[h] = true
+	return sums
+}
+
+// pairing is lockPairing (common.go) over events(): every non-deferred acquire
+// in f is released on every path to a normal exit.
+func (l *c12Locks) pairing(rule string, f *core.Func) int {
+	c := l.c
+	g := f.Graph()
+	evs := l.events(f)
+	exits := g.Exits()
+	n := 0
+	for _, a := range evs {
+		if !a.Acquire || a.Deferred {
+			continue
+		}
+		n++
+		var rel []core.Point
+		for _, r := range evs {
+			if !r.Acquire && r.Path == a.Path && r.Mode == a.Mode {
+				rel = append(rel, r.P)
+			}
+		}
+		name := map[string]string{"W": "Lock", "R": "RLock"}[a.Mode]
+		base := fmt.Sprintf("%s|%s base=%s#%d", f.Key, name, a.Path, a.Ordinal)
+		if len(rel) == 0 && f.Lit == nil && l.callers[f] > 0 {
+			handed := false
+			for _, s := range l.summary(f) {
+				root, rest := pathRoot(a.Path)
+				if s.acquire && s.mode == a.Mode && s.rest == rest && ((s.root == -1 && recvIdent(f) == root) || (s.root >= 0 && paramIndex(f, root) == s.root)) {
+					handed = true
+				}
+			}
+			if handed {
+				c.Ok(rule, base, pos(c, a.Call), fmt.Sprintf("lock helper: acquires on every path and never releases; each of its %d call sites is checked as an acquire of the caller", l.callers[f]))
+				continue
+			}
+		}
+		bad := 0
+		for _, e := range exits {
+			if e.Kind == "panic" {
+				continue
+			}
+			from := a.P
+			trail, found := g.Search(core.Query{From: &from, Goal: core.At(e.P), Avoid: core.At(rel...)})
+			if found {
+				bad++
+				c.Fail(rule, base+"|exit="+e.String(), ppos(c, e.P, f),
+					fmt.Sprintf("%s on %s acquired at %s is still held when the function leaves by %s", name, a.Path, pos(c, a.Call), e.String()),
+					g.Trail(trail)...)
+			}
+		}
+		if bad == 0 {
+			c.Ok(rule, base, pos(c, a.Call), fmt.Sprintf("released on all %d exits", len(exits)))
+		}
+	}
+	return n
+}
+
+// ---------------------------------------------------------------------------
+// R2: emitter spawns and their consumers.
+
+type emitSpawn struct {
+	f    *core.Func
+	hit  core.Hit      // the go statement in f
+	call *ast.CallExpr // the EmitLabelSets call (in the go statement or in its literal)
+}
+
+// emitterSpawns finds the `go X.EmitLabelSets(ch)` statements in shipped code
+// (also used by C22).
 func emitterSpawns(c *core.Check) []emitSpawn {
 	var out []emitSpawn
 	for _, f := range shipped(c) {
@@ -34,19 +273,303 @@ func emitterSpawns(c *core.Check) []emitSpawn {
 	return out
 }
 
-func c12(c *core.Check) {
-	c.Explain = "Decides structural necessary conditions of C12 on /repo's source: (R1) every Lock/RLock acquired in shipped code is released on every control-flow path to a normal exit of the acquiring function (go/cfg path search, defer-aware); (R2) every loop that drains a label-set emitter goroutine can only be left through channel close, so the emitter is never left blocked on its unbuffered send; (R3) the HTTP handlers test for client cancellation before taking a metric lock; (R4) the emitter closes its channel on every exit and takes no lock itself (the caller's read lock is delegated to it; a nested RLock could deadlock against a waiting writer). It does not decide liveness of the network peer or the scheduler."
-	c.Assume = append(c.Assume, "sync.Mutex/RWMutex semantics; a deferred Unlock runs on every exit; panics are not considered exits",
-		"lock identity is the syntactic access path of the mutex owner inside one function")
+// emitterSpawnsAll finds `go X.EmitLabelSets(ch)` and `go func() { … X.EmitLabelSets(ch) … }()`
+// in shipped code; sync lists calls of EmitLabelSets that are not started as a goroutine.
+func emitterSpawnsAll(c *core.Check) (out []emitSpawn, sync []emitSpawn) {
+	inGoLit := map[*ast.CallExpr]bool{}
+	for _, f := range shipped(c) {
+		g := f.Graph()
+		for _, h := range g.Find(func(n ast.Node) bool { _, ok := n.(*ast.GoStmt); return ok }) {
+			gs := h.N.(*ast.GoStmt)
+			if f.CalleeID(gs.Call) == emitLabelSets {
+				out = append(out, emitSpawn{f, h, gs.Call})
+				inGoLit[gs.Call] = true
+				continue
+			}
+			if lit, ok := core.Unparen(gs.Call.Fun).(*ast.FuncLit); ok {
+				ast.Inspect(lit.Body, func(n ast.Node) bool {
+					if call, ok := n.(*ast.CallExpr); ok && f.CalleeID(call) == emitLabelSets {
+						out = append(out, emitSpawn{f, h, call})
+						inGoLit[call] = true
+					}
+					return true
+				})
+			}
+		}
+	}
+	for _, f := range shipped(c) {
+		for _, h := range f.Graph().CallsTo(emitLabelSets) {
+			if call := h.N.(*ast.CallExpr); !inGoLit[call] {
+				sync = append(sync, emitSpawn{f, h, call})
+			}
+		}
+	}
+	return
+}
 
-	c.Rule("C12-R1", "PAIR: for each acquire a of lock L in function f, no CFG path from a to a return/end of f avoids every release of L (same access path and mode; `defer` counts as release)")
+// c12Drain decides "this function observes the close of channel ch on every
+// path from a point to its exits".
+type c12Drain struct {
+	c    *core.Check
+	memo map[string]bool
+	busy map[string]bool
+}
+
+// closedEdges returns the CFG edges of f taken only when ch is closed: the
+// head->done edge of `for … range ch` and the not-ok edge of a test of the ok
+// result of `v, ok := <-ch`.  consumers are the points of calls handing ch to
+// a module function that drains its parameter on every path.
+func (d *c12Drain) closedEdges(f *core.Func, ch types.Object, depth int) (edge func(b *cfg.Block, si int) bool, consumers []core.Point, nloops int) {
+	info := f.Info()
+	isCh := func(e ast.Expr) bool {
+		e = resolveAlias(f, e)
+		return identObj(info, e) == ch && ch != nil
+	}
+	// ok results of receives from ch
+	okOf := func(obj types.Object) bool {
+		if obj == nil {
+			return false
+		}
+		n, good := 0, true
+		ast.Inspect(f.Decl.Body, func(x ast.Node) bool {
+			as, isA := x.(*ast.AssignStmt)
+			if !isA {
+				return true
+			}
+			for i, lh := range as.Lhs {
+				if identObj(info, lh) != obj {
+					continue
+				}
+				n++
+				u, isU := core.Unparen(as.Rhs[0]).(*ast.UnaryExpr)
+				if !(i == 1 && len(as.Lhs) == 2 && len(as.Rhs) == 1 && isU && u.Op == token.ARROW && isCh(u.X)) {
+					good = false
+				}
+			}
+			return true
+		})
+		return n > 0 && good
+	}
+	gd := newGuard(guardSpec{atom: func(af *core.Func, e ast.Expr, _ func(ast.Expr) string) (bool, bool) {
+		if id, ok := core.Unparen(e).(*ast.Ident); ok && okOf(identObj(af.Info(), id)) {
+			return false, true // ok false => closed
+		}
+		return false, false
+	}})
+	ge := gd.edges(f, nil, 0)
+	loops := map[ast.Stmt]bool{}
+	for _, rs := range rangeStmts(f) {
+		if isCh(rs.X) {
+			loops[rs] = true
+			nloops++
+		}
+	}
+	g := f.Graph()
+	for _, h := range g.Find(func(n ast.Node) bool { _, ok := n.(*ast.CallExpr); return ok }) {
+		call := h.N.(*ast.CallExpr)
+		cf := f.CalleeFunc(call)
+		if cf == nil || cf.Lit != nil || h.InGo || h.InDefer || depth >= 3 {
+			continue
+		}
+		for i, a := range call.Args {
+			if isCh(a) {
+				if po := paramAt(cf, i); po != nil && d.drains(cf, po, depth+1) {
+					consumers = append(consumers, h.P)
+				}
+			}
+		}
+	}
+	return func(b *cfg.Block, si int) bool {
+		if b.Kind == cfg.KindRangeLoop && loops[b.Stmt] && si == 1 {
+			return true
+		}
+		return ge(b, si)
+	}, consumers, nloops
+}
+
+// drains: every path from the entry of h to a normal exit sees ch (a parameter of h) closed.
+func (d *c12Drain) drains(h *core.Func, ch types.Object, depth int) bool {
+	key := fmt.Sprintf("%s|%p", h.Key, ch)
+	if v, ok := d.memo[key]; ok {
+		return v
+	}
+	if d.busy[key] || assignedIn(h, ch) {
+		return false
+	}
+	d.busy[key] = true
+	defer delete(d.busy, key)
+	g := h.Graph()
+	edge, cons, _ := d.closedEdges(h, ch, depth)
+	_, open := g.Search(core.Query{Goal: core.At(core.ExitPoints(normalExits(g))...), Avoid: core.At(cons...), AvoidEdge: edge})
+	d.memo[key] = !open
+	return !open
+}
+
+// ---------------------------------------------------------------------------
+// R3: cancellation tests.
+
+func isContextType(t types.Type) bool {
+	if t == nil {
+		return false
+	}
+	n, ok := t.(*types.Named)
+	return ok && n.Obj().Name() == "Context" && n.Obj().Pkg() != nil && n.Obj().Pkg().Path() == "context"
+}
+
+// ctxErrCall reports whether e (after following single-definition locals) is X.Err() on a context.
+func ctxErrCall(f *core.Func, e ast.Expr) bool {
+	call, ok := resolveLocal(f, e).(*ast.CallExpr)
+	if !ok || f.CalleeID(call) != "context.Context.Err" {
+		return false
+	}
+	return isContextType(f.Info().TypeOf(core.RecvExpr(call)))
+}
+
+// c12CancelGuard builds the guard for P = "the context was found not cancelled"
+// (notCancelled = true) or P = "found cancelled".
+func c12CancelGuard(notCancelled bool) *guard {
+	return newGuard(guardSpec{extra: func(f *core.Func) func(b *cfg.Block, si int) bool {
+		e, _, _ := c12SelectEdges(f, notCancelled)
+		return e
+	}, atom: func(f *core.Func, e ast.Expr, _ func(ast.Expr) string) (bool, bool) {
+		x, trueWhenNonNil, ok := nilCompare(f.Info(), e)
+		if !ok || !ctxErrCall(f, x) {
+			return false, false
+		}
+		// Err() != nil  <=>  cancelled
+		if notCancelled {
+			return !trueWhenNonNil, trueWhenNonNil
+		}
+		return trueWhenNonNil, !trueWhenNonNil
+	}})
+}
+
+// c12SelectEdges classifies the edges of non-blocking selects on ctx.Done():
+// `select { case <-ctx.Done(): …; default: }`.  It returns the predicate for
+// the requested polarity, the number of such selects, and the selects on Done
+// that block (no default clause).
+func c12SelectEdges(f *core.Func, notCancelled bool) (edge func(b *cfg.Block, si int) bool, n int, blocking []*ast.SelectStmt) {
+	doneClause := map[ast.Stmt]bool{}
+	isDone := func(cc *ast.CommClause) bool {
+		es, ok := cc.Comm.(*ast.ExprStmt)
+		if !ok {
+			return false
+		}
+		u, ok := core.Unparen(es.X).(*ast.UnaryExpr)
+		if !ok || u.Op != token.ARROW {
+			return false
+		}
+		call, ok := resolveLocal(f, u.X).(*ast.CallExpr)
+		return ok && f.CalleeID(call) == "context.Context.Done" && isContextType(f.Info().TypeOf(core.RecvExpr(call)))
+	}
+	core.InspectNoLit(f.Body, func(x ast.Node) bool {
+		sel, ok := x.(*ast.SelectStmt)
+		if !ok {
+			return true
+		}
+		hasDefault, others := false, 0
+		var dones []*ast.CommClause
+		for _, cl := range sel.Body.List {
+			cc := cl.(*ast.CommClause)
+			switch {
+			case cc.Comm == nil:
+				hasDefault = true
+			case isDone(cc):
+				dones = append(dones, cc)
+			default:
+				others++
+			}
+		}
+		if len(dones) == 0 {
+			return true
+		}
+		if !hasDefault {
+			if others == 0 {
+				blocking = append(blocking, sel)
+			}
+			return true
+		}
+		if others == 0 && len(dones) == 1 {
+			n++
+			doneClause[dones[0]] = true
+		}
+		return true
+	})
+	return func(b *cfg.Block, si int) bool {
+		if si >= len(b.Succs) {
+			return false
+		}
+		s := b.Succs[si]
+		if !doneClause[s.Stmt] {
+			return false
+		}
+		if notCancelled {
+			return s.Kind == cfg.KindSelectAfterCase
+		}
+		return s.Kind == cfg.KindSelectCaseBody
+	}, n, blocking
+}
+
+// c12MentionsCtx reports whether f or a module function it calls directly uses Done or Err of a context.
+func c12MentionsCtx(f *core.Func) bool {
+	found := false
+	look := func(fn *core.Func) {
+		ast.Inspect(fn.Body, func(n ast.Node) bool {
+			if call, ok := n.(*ast.CallExpr); ok {
+				if id := fn.CalleeID(call); id == "context.Context.Done" || id == "context.Context.Err" {
+					found = true
+				}
+			}
+			return !found
+		})
+	}
+	look(f)
+	for _, cf := range f.Callees() {
+		look(cf)
+	}
+	return found
+}
+
+// rangeCallbacks finds the function passed to (*metrics.Store).Range inside the declaration key.
+func rangeCallbacks(c *core.Check, f *core.Func) []*core.Func {
+	var out []*core.Func
+	ast.Inspect(f.Body, func(n ast.Node) bool {
+		call, ok := n.(*ast.CallExpr)
+		if !ok || f.CalleeID(call) != "internal/metrics.(*Store).Range" || len(call.Args) != 1 {
+			return true
+		}
+		switch a := resolveLocal(f, call.Args[0]).(type) {
+		case *ast.FuncLit:
+			if lf := c.Prog.FuncOf[a]; lf != nil {
+				out = append(out, lf)
+			}
+		default:
+			if fo, ok := usedObj(f.Info(), a).(*types.Func); ok {
+				if cf := c.Prog.ByObj[fo.Origin()]; cf != nil {
+					out = append(out, cf)
+				}
+			}
+		}
+		return true
+	})
+	return out
+}
+
+func c12(c *core.Check) {
+	c.Explain = "Decides structural necessary conditions of C12 on /repo's source: (R1) every Lock/RLock acquired in shipped code is released on every control-flow path to a normal exit of the acquiring function (go/cfg path search, defer-aware; pure lock/unlock helper functions of the module are followed and count as acquire/release at their call sites); (R2) after every spawn of a label-set emitter goroutine, every path to an exit of the spawning function observes the channel closed (end of `range ch`, the not-ok branch of `v, ok := <-ch`, or a callee that drains the channel the same way), so the emitter is never left blocked on its unbuffered send; (R3) the HTTP handlers test for client cancellation (non-blocking select on Done, or ctx.Err() != nil, in any branch shape or helper) before taking a metric lock; (R4) the emitter closes its channel on every exit, sends only on it, and neither it nor its callees take a lock (the caller's read lock is delegated to it; a nested RLock could deadlock against a waiting writer). It does not decide liveness of the network peer or the scheduler."
+	c.Assume = append(c.Assume, "sync.Mutex/RWMutex semantics; a deferred Unlock runs on every exit; panics are not considered exits",
+		"lock identity is the syntactic access path of the mutex owner inside one function; at a call of a lock/unlock helper the helper's receiver/parameter is replaced by the call's receiver/argument path",
+		"a range over a channel ends only when the channel is closed; the ok result of a receive is false only when it is closed")
+
+	c.Rule("C12-R1", "PAIR: for each acquire a of lock L in function f, no CFG path from a to a return/end of f avoids every release of L (same access path and mode; `defer` counts as release; a call of a module function that only releases / only acquires its receiver's or parameter's lock on every path counts as that release / acquire)")
 	for _, k := range []string{"2", "3", "4"} {
 		c.Exempt("C12-R1", "internal/metrics.(*Store).Add|RLock base=s.searchMu#1|exit=return#"+k,
 			"infeasible path: the three error returns in the label-copy loop only fire on a label/key arity mismatch, and the loop is entered only after reflect.DeepEqual(v.Keys, m.Keys); every stored LabelValue has len(Labels)==len(Keys) by AppendLabelValue's guard (C08-R3/C09-R3)")
 	}
+	locks := newC12Locks(c)
 	total := 0
 	for _, f := range shipped(c) {
-		n := lockPairing(c, "C12-R1", f)
+		n := locks.pairing("C12-R1", f)
 		if n > 0 {
 			c.Analysed(f)
 		}
@@ -55,8 +578,9 @@ func c12(c *core.Check) {
 	c.Floor("C12-R1", 50)
 	c.Extra["acquire_sites"] = total
 
-	c.Rule("C12-R2", "DRAIN: for each `go m.EmitLabelSets(ch)` the consumer `for … range ch` in the same function has no way out of its body other than the loop head (no return/break/goto), so the emitter always reaches close(ch)")
-	spawns := emitterSpawns(c)
+	c.Rule("C12-R2", "DRAIN: for each goroutine started on m.EmitLabelSets(ch), every path of the spawning function from the spawn to a return/end observes ch closed (leaves `for … range ch` through its head, takes the not-ok branch of a receive, or passes a call that drains ch so): no return/break/goto out of the consumer, so the emitter always reaches close(ch); EmitLabelSets is never called synchronously on an unbuffered channel")
+	spawns, syncCalls := emitterSpawnsAll(c)
+	drain := &c12Drain{c: c, memo: map[string]bool{}, busy: map[string]bool{}}
 	for _, s := range spawns {
 		f := s.f
 		c.Analysed(f)
@@ -66,93 +590,158 @@ func c12(c *core.Check) {
 			c.Undecided("C12-R2", key, pos(c, s.call), "unexpected arity")
 			continue
 		}
-		ch := identObj(f.Info(), s.call.Args[0])
+		ch := identObj(f.Info(), resolveAlias(f, s.call.Args[0]))
 		if ch == nil {
 			c.Undecided("C12-R2", key, pos(c, s.call), "channel argument is not a local identifier")
 			continue
 		}
-		loops := rangeOver(f, ch)
-		if len(loops) != 1 {
-			c.Fail("C12-R2", key, pos(c, s.call), fmt.Sprintf("expected exactly one `range %s` consumer in the spawning function, found %d: the emitter is not drained here", ch.Name(), len(loops)))
-			continue
-		}
-		// the loop must be reached from the spawn on every path (otherwise nobody drains)
-		head, _, _ := loopBlocks(g, loops[0])
+		edge, consumers, nloops := drain.closedEdges(f, ch, 0)
 		from := s.hit.P
-		if trail, found := g.Search(core.Query{From: &from, Goal: core.At(core.ExitPoints(g.Exits())...), Avoid: func(p core.Point) bool { return p.B == head }}); found {
-			c.Fail("C12-R2", key+"|spawn-without-consumer", pos(c, s.call), "a path from the spawn reaches a function exit without entering the draining loop", g.Trail(trail)...)
+		bad := 0
+		for _, e := range normalExits(g) {
+			trail, found := g.Search(core.Query{From: &from, Goal: core.At(e.P), Avoid: core.At(consumers...), AvoidEdge: edge})
+			if !found {
+				continue
+			}
+			bad++
+			what := "the loop draining the emitter can be left early"
+			if nloops == 0 && len(consumers) == 0 {
+				what = fmt.Sprintf("no consumer of %s that runs until the channel is closed follows the spawn", ch.Name())
+			}
+			c.Fail("C12-R2", fmt.Sprintf("%s|early-exit#%d", key, bad), ppos(c, e.P, f),
+				fmt.Sprintf("%s: %s is reached from the spawn without the channel having been seen closed, leaving the emitter goroutine blocked on send (and the metric read-locked)", what, e.String()), g.Trail(trail)...)
 		}
-		early := earlyLoopExits(c, g, loops[0])
-		if len(early) == 0 {
-			c.Ok("C12-R2", key, pos(c, loops[0]), "the draining loop can only end by channel close")
+		if bad == 0 {
+			c.Ok("C12-R2", key, pos(c, s.call), fmt.Sprintf("every path from the spawn ends by channel close (%d range loops, %d draining callees)", nloops, len(consumers)))
 		}
-		for i, e := range early {
-			c.Fail("C12-R2", fmt.Sprintf("%s|early-exit#%d", key, i+1), pos(c, loops[0]), "the loop draining the emitter can be left early, leaving the emitter goroutine blocked on send: "+e)
+	}
+	for _, s := range syncCalls {
+		f := s.f
+		key := f.Key + "|EmitLabelSets without go"
+		unbuffered := false
+		if len(s.call.Args) == 1 {
+			if mk, ok := resolveLocal(f, s.call.Args[0]).(*ast.CallExpr); ok && f.CalleeID(mk) == "builtin.make" && len(mk.Args) == 1 {
+				unbuffered = true
+			}
+		}
+		if unbuffered {
+			c.Fail("C12-R2", key, pos(c, s.call), "EmitLabelSets is called synchronously on an unbuffered channel: it blocks on its first send because no consumer runs concurrently")
+		} else {
+			c.Undecided("C12-R2", key, pos(c, s.call), "EmitLabelSets is called outside a go statement on a channel whose capacity is not known here")
 		}
 	}
 	c.Floor("C12-R2", 4)
 
-	c.Rule("C12-R3", "DOM: in the store-iteration callbacks of the HTTP text handlers (varz, graphite) a non-blocking test of the request context dominates the metric RLock, and its Done branch returns")
-	for _, key := range []string{"internal/exporter.(*Exporter).HandleVarz$1", "internal/exporter.(*Exporter).HandleGraphite$1"} {
-		f := c.MustFn("C12-R3", key)
-		if f == nil {
+	c.Rule("C12-R3", "DOM: in the store-iteration callbacks of the HTTP text handlers (varz, graphite) every path to an acquire of the metric lock (direct, or through a callee that locks a metric) first finds the request context not cancelled by a non-blocking test (default branch of `select { case <-ctx.Done(): … default: }`, or ctx.Err() == nil), and no path from the cancelled outcome of such a test reaches the acquire")
+	metricLockers := c.Prog.Reaching(func(f *core.Func) bool {
+		for _, ev := range f.Graph().LockEvents() {
+			if !ev.Acquire {
+				continue
+			}
+			if t := f.Info().TypeOf(core.RecvExpr(ev.Call)); t != nil && strings.HasSuffix(strings.TrimPrefix(t.String(), "*"), "internal/metrics.Metric") {
+				return true
+			}
+		}
+		return false
+	})
+	for _, hk := range []string{"internal/exporter.(*Exporter).HandleVarz", "internal/exporter.(*Exporter).HandleGraphite"} {
+		hf := c.MustFn("C12-R3", hk)
+		if hf == nil {
 			continue
 		}
+		cbs := rangeCallbacks(c, hf)
+		if len(cbs) != 1 {
+			c.Undecided("C12-R3", hk, pos(c, hf.Decl), fmt.Sprintf("expected one callback passed to Store.Range, found %d", len(cbs)))
+			continue
+		}
+		f := cbs[0]
+		c.Analysed(f)
+		key := f.Key
 		g := f.Graph()
-		done := g.Find(func(n ast.Node) bool {
-			u, ok := n.(*ast.UnaryExpr)
-			if !ok || u.Op != token.ARROW {
-				return false
-			}
-			call, ok := core.Unparen(u.X).(*ast.CallExpr)
-			return ok && strings.HasSuffix(f.CalleeID(call), ".Done")
-		})
-		var acq []core.LockEv
-		for _, ev := range g.LockEvents() {
+		type acqPt struct {
+			p    core.Point
+			name string
+			n    ast.Node
+		}
+		var acq []acqPt
+		for _, ev := range locks.events(f) {
 			if ev.Acquire {
-				acq = append(acq, ev)
+				acq = append(acq, acqPt{ev.P, fmt.Sprintf("%s#%d", ev.Path, ev.Ordinal), ev.Call})
 			}
 		}
+		ncall := 0
+		for _, h := range g.Find(func(n ast.Node) bool { _, ok := n.(*ast.CallExpr); return ok }) {
+			call := h.N.(*ast.CallExpr)
+			if cf := f.CalleeFunc(call); cf != nil && metricLockers[cf] && len(locks.summary(cf)) == 0 {
+				ncall++
+				acq = append(acq, acqPt{h.P, fmt.Sprintf("call %s#%d", cf.Key, ncall), call})
+			}
+		}
+		_, _, blocking := c12SelectEdges(f, true)
+		for _, sel := range blocking {
+			c.Fail("C12-R3", key+"|blocking test", pos(c, sel), "the cancellation test is a select on Done without a default clause: the export of every metric blocks until the client goes away")
+		}
 		if len(acq) == 0 {
-			c.Undecided("C12-R3", key, pos(c, f.Body), "no lock acquire found in the callback")
+			if len(blocking) == 0 {
+				c.Undecided("C12-R3", key, pos(c, f.Body), "no lock acquire found in the callback or its callees")
+			}
+			continue
+		}
+		okEdge := c12CancelGuard(true).edges(f, nil, 0)
+		badEdge := c12CancelGuard(false).edges(f, nil, 0)
+		tested := guardedAnywhere(g, okEdge)
+		if !tested && len(blocking) == 0 && c12MentionsCtx(f) {
+			c.Undecided("C12-R3", key+"|test shape", pos(c, f.Body), "the callback (or a function it calls) uses ctx.Done()/ctx.Err() but not as a recognised non-blocking cancellation test")
 			continue
 		}
 		for _, a := range acq {
-			trail, found := g.Search(core.Query{Goal: core.At(a.P), Avoid: core.At(core.HitPoints(done)...)})
-			ok := !found && len(done) > 0
-			c.Verdict(ok, "C12-R3", fmt.Sprintf("%s|%s#%d", key, a.Path, a.Ordinal), pos(c, a.Call),
+			trail, found := g.Search(core.Query{Goal: core.At(a.p), AvoidEdge: okEdge})
+			c.Verdict(!found && tested, "C12-R3", fmt.Sprintf("%s|%s", key, a.name), pos(c, a.n),
 				"cancellation test dominates the acquire", "the metric lock can be taken without first testing the request context for cancellation", g.Trail(trail)...)
 		}
-		// the Done clause must return
-		okRet := false
-		core.InspectNoLit(f.Body, func(n ast.Node) bool {
-			cc, ok := n.(*ast.CommClause)
-			if !ok || cc.Comm == nil {
-				return true
+		// the cancelled outcome must not reach an acquire
+		okRet := tested
+		var tr0 []string
+		for _, b := range g.C.Blocks {
+			if !b.Live {
+				continue
 			}
-			isDone := false
-			ast.Inspect(cc.Comm, func(x ast.Node) bool {
-				if call, ok := x.(*ast.CallExpr); ok && strings.HasSuffix(f.CalleeID(call), ".Done") {
-					isDone = true
+			for si := range b.Succs {
+				if !badEdge(b, si) {
+					continue
 				}
-				return true
-			})
-			if isDone {
-				for _, st := range cc.Body {
-					if _, ok := st.(*ast.ReturnStmt); ok {
-						okRet = true
-					}
+				var goals []core.Point
+				for _, a := range acq {
+					goals = append(goals, a.p)
+				}
+				start := core.Point{B: b.Succs[si], I: -1}
+				if tr, found := g.Search(core.Query{From: &start, Goal: core.At(goals...)}); found {
+					okRet = false
+					tr0 = g.Trail(tr)
 				}
 			}
-			return true
-		})
-		c.Verdict(okRet, "C12-R3", key+"|done-returns", pos(c, f.Body), "the Done clause returns before any lock", "the clause selected on cancellation does not return")
+		}
+		c.Verdict(okRet, "C12-R3", key+"|done-returns", pos(c, f.Body), "the cancelled outcome leaves before any lock", "the clause selected on cancellation does not return: the lock is taken for a client that has gone away", tr0...)
 	}
 
-	c.Rule("C12-R4", "EMITTER: EmitLabelSets closes its channel on every exit, sends only on that channel, and acquires no lock (it runs under the spawner's delegated read lock)")
+	c.Rule("C12-R4", "EMITTER: EmitLabelSets closes its channel parameter on every exit, sends only on that channel, and acquires no lock, directly or through a module callee (it runs under the spawner's delegated read lock)")
 	if f := c.MustFn("C12-R4", emitLabelSets); f != nil {
 		g := f.Graph()
-		closes := g.CallsTo("builtin.close")
+		chp := paramAt(f, 0)
+		closes := g.Calls(func(id string, call *ast.CallExpr) bool {
+			return id == "builtin.close" && len(call.Args) == 1 && chp != nil && identObj(f.Info(), resolveAlias(f, call.Args[0])) == chp
+		})
+		// a deferred literal that closes the channel counts at its defer statement
+		for _, h := range g.Find(func(n ast.Node) bool { _, ok := n.(*ast.DeferStmt); return ok }) {
+			if lit, ok := core.Unparen(h.N.(*ast.DeferStmt).Call.Fun).(*ast.FuncLit); ok {
+				ast.Inspect(lit.Body, func(x ast.Node) bool {
+					if call, ok := x.(*ast.CallExpr); ok && f.CalleeID(call) == "builtin.close" && len(call.Args) == 1 && identObj(f.Info(), call.Args[0]) == chp && chp != nil {
+						closes = append(closes, h)
+					}
+					return true
+				})
+			}
+		}
 		bad := false
 		for _, e := range g.Exits() {
 			if e.Kind == "panic" {
@@ -166,6 +755,12 @@ func c12(c *core.Check) {
 		if !bad {
 			c.Ok("C12-R4", emitLabelSets+"|close", pos(c, f.Decl), "channel closed on every exit")
 		}
+		for i, h := range g.Find(func(n ast.Node) bool { _, ok := n.(*ast.SendStmt); return ok }) {
+			ss := h.N.(*ast.SendStmt)
+			if identObj(f.Info(), resolveAlias(f, ss.Chan)) != chp || chp == nil {
+				c.Fail("C12-R4", fmt.Sprintf("%s|send#%d", emitLabelSets, i+1), pos(c, ss), "the emitter sends on a channel other than the one its consumer drains: nobody is bound to receive, the emitter can block forever under the delegated read lock")
+			}
+		}
 		nlock := 0
 		for _, ev := range g.LockEvents() {
 			if ev.Acquire {
@@ -173,8 +768,32 @@ func c12(c *core.Check) {
 				c.Fail("C12-R4", fmt.Sprintf("%s|acquires %s:%s", emitLabelSets, ev.Path, ev.Mode), pos(c, ev.Call), "the emitter takes a lock while its spawner already holds the metric's read lock: with a writer waiting, a nested RLock blocks forever")
 			}
 		}
+		anyLocker := c.Prog.Reaching(func(lf *core.Func) bool {
+			for _, ev := range lf.Graph().LockEvents() {
+				if ev.Acquire {
+					return true
+				}
+			}
+			for _, l := range lf.Lits {
+				for _, ev := range l.Graph().LockEvents() {
+					if ev.Acquire {
+						return true
+					}
+				}
+			}
+			return false
+		})
+		ast.Inspect(f.Body, func(n ast.Node) bool {
+			if call, ok := n.(*ast.CallExpr); ok {
+				if cf := f.CalleeFunc(call); cf != nil && cf != f && anyLocker[cf] {
+					nlock++
+					c.Fail("C12-R4", fmt.Sprintf("%s|acquires through %s", emitLabelSets, cf.Key), pos(c, call), "the emitter calls a function that takes a lock while its spawner already holds the metric's read lock: with a writer waiting, a nested RLock blocks forever")
+				}
+			}
+			return true
+		})
 		if nlock == 0 {
-			c.Ok("C12-R4", emitLabelSets+"|lock-free", pos(c, f.Decl), "no lock acquired in the emitter")
+			c.Ok("C12-R4", emitLabelSets+"|lock-free", pos(c, f.Decl), "no lock acquired in the emitter or its callees")
 		}
 	}
 }
